@@ -271,7 +271,7 @@ func buildPregel(r *lib.Rng, z *zoo) (*object, error) {
 	mshared := []string{opT(0, "S", keysAsPaths("a", par[0])...)}
 	shared = spare(shared) // spare capacity: an append to the options inside a run must not reach it
 	return &object{
-		desc: d,
+		desc: d, roots: []any{run, g, shared}, proj: run,
 		mcall: func(sp spec, si int) string {
 			max := 0
 			if sp.Opt&optMaxSteps != 0 {
@@ -418,7 +418,7 @@ func buildDag(r *lib.Rng, z *zoo) (*object, error) {
 	mshared := []string{opT(0, "S", []string{all[0]}), opT(0, "SG")}
 	shared = spare(shared) // spare capacity: an append to the options inside a run must not reach it
 	return &object{
-		desc: d,
+		desc: d, roots: []any{run, g, shared}, proj: run,
 		mcall: func(sp spec, si int) string {
 			return callTerm(vM("id", vS(selfTag), "x", vS(strings.Repeat("x", sp.In+1))),
 				mWithShared(sp.Opt, mshared, mLambdaOpts(si, sp.Opt, des...)), 0)
@@ -527,7 +527,7 @@ func buildWorkflow(r *lib.Rng, z *zoo) (*object, error) {
 	mshared := []string{opT(0, "S", []string{"l"}, []string{"m"})}
 	shared = spare(shared) // spare capacity: an append to the options inside a run must not reach it
 	return &object{
-		desc: d,
+		desc: d, roots: []any{run, wf, shared}, proj: run,
 		mcall: func(sp spec, si int) string {
 			return callTerm(vM("A", vS(fmt.Sprintf("a%d", sp.In)), "B", vS(fmt.Sprintf("b%d", sp.In*7)), "ID", vS(selfTag)),
 				mWithShared(sp.Opt, mshared, mLambdaOpts(si, sp.Opt, "l", "m")), 0)
